@@ -249,6 +249,19 @@ def _plan(chk, tier, only=None):
     return specs
 
 
+def _replays_fresh(pid, path):
+    import subprocess
+
+    env = dict(os.environ)
+    env["VERIF_OPT_PASS"] = "0"
+    try:
+        p = subprocess.run([sys.executable] + (["-O"] if sys.flags.optimize else []) + ["-c", "import sys; sys.path.insert(0, %r); from dsim import driver; sys.exit(driver.main(sys.argv[1:]))" % VERIF_DIR,
+                            pid, "--replay", path], env=env, stdout=subprocess.PIPE, stderr=subprocess.STDOUT, text=True, timeout=600, cwd=VERIF_DIR)
+    except Exception:
+        return False
+    return p.returncode == 1 and "VIOLATION property=" in p.stdout
+
+
 def write_replay(chk, case, v, seed, minimised_from=None, digest=None):
     os.makedirs(os.path.join(VERIF_DIR, "replays"), exist_ok=True)
     name = f"{chk.pid}-{seed}-{case.get('arm', 'x')}-{case.get('run', 0)}-{core.derive(*core.vclass(v)) % 100000:05d}.json"
@@ -287,30 +300,51 @@ def run_check(pid, tier, seed, budget_s=None, workers=None, digests_out=None, st
             chk.worker_init()
         by_class = {}
         for arm, i, rs, v, case in sorted(agg.viol, key=lambda x: (x[0], x[1], x[3]["oracle"], x[3]["site"])):
-            by_class.setdefault(core.vclass(v), (arm, i, rs, v, case))
-        for c, (arm, i, rs, v, case) in list(by_class.items())[:MAX_CLASSES]:
+            by_class.setdefault(core.vclass(v), []).append((arm, i, rs, v, case))
+        for c, instances in list(by_class.items())[:MAX_CLASSES]:
             if c in state["done"] or state["reported"] >= MAX_CLASSES:
                 continue
             state["done"].add(c)
-            if case is None:
-                agg.errors.append(f"violation {c} without a case")
-                continue
-            vcase = dict(case)
-            try:
-                res = execute_case(chk, vcase)
-            except Exception as e:
-                agg.errors.append(f"re-execution of {pid}/{arm}/{i} failed: {e}")
-                continue
-            same = [x for x in res["viol"] if core.vclass(x) == c]
-            if not same:
-                agg.errors.append(
+            # a violation counts only if its resolved case, executed alone in a pristine child, shows it again.  Up to four runs that showed the
+            # same class are tried (a defect that depends on where objects happen to be allocated shows in one process and not in the next);
+            # if none reproduces, that is a harness error, never a VIOLATION line
+            vcase = None
+            failures = []
+            for arm, i, rs, v, case in instances[:4]:
+                if case is None:
+                    failures.append(f"violation {c} without a case")
+                    continue
+                cand = dict(case)
+                try:
+                    res = execute_case(chk, cand)
+                except Exception as e:
+                    failures.append(f"re-execution of {pid}/{arm}/{i} failed: {e}")
+                    continue
+                if [x for x in res["viol"] if core.vclass(x) == c]:
+                    vcase = cand
+                    break
+                failures.append(
                     f"violation {c} of {pid}/{arm}/{i} did not reproduce when its resolved case was "
                     f"re-executed alone in a pristine child (history-dependent or nondeterministic)"
                 )
+            if vcase is None:
+                agg.errors.extend(failures[:2])
                 continue
+            if failures:
+                agg.probes["violation_instance_not_reproduced_but_another_of_its_class_was"] += len(failures)
             n_before = len(vcase.get("ops", []))
             mcase, mv, tried = shrink.minimise(chk, vcase, c, execute_case)
             path = write_replay(chk, mcase, mv, seed, minimised_from=n_before)
+            # the replay file must show the violation in a process of its own (a fresh interpreter, not a fork of this one): checked here.  A
+            # minimised case that only fails in forks of this process (object addresses, allocator state) is replaced by the unminimised one
+            if not _replays_fresh(pid, path):
+                agg.probes["minimised_case_did_not_replay_in_a_fresh_process"] += 1
+                v0 = next((x for x in execute_case(chk, vcase)["viol"] if core.vclass(x) == c), mv)
+                path = write_replay(chk, vcase, v0, seed, minimised_from=n_before)
+                mcase, mv = vcase, v0
+                if not _replays_fresh(pid, path):
+                    agg.errors.append(f"violation {c} of {pid} shows in forks of the driver but its replay file {path} does not show it in a fresh process")
+                    continue
             lines.append(f"VIOLATION property={pid} replay={path}")
             lines.append(f"  oracle={mv['oracle']} site={mv['site']} arm={arm} run={i} ops {n_before}->{len(mcase.get('ops', []))} ({tried} candidates tried)")
             lines.append(f"  detail: {mv['detail']}")
